@@ -59,13 +59,23 @@ def cells(tier):
     return out
 
 def run_cell(crate, feats, target):
-    cmd = ["cargo", "check", "--offline", "--manifest-path", os.path.join(REPO, "Cargo.toml"), "-p", crate,
-           "--no-default-features", "--lib", "--examples", "--target-dir", target, "-q"]
+    """Two observations per configuration:
+    1. `--lib` alone — what a downstream consumer with exactly these features compiles.  (Checking
+       `--lib --examples` together would let cargo unify the features requested by the examples'
+       dev-dependencies into the library and mask a missing gate.)
+    2. `--examples` — every example whose required-features are enabled."""
+    base = ["cargo", "check", "--offline", "--manifest-path", os.path.join(REPO, "Cargo.toml"), "-p", crate,
+            "--no-default-features", "--target-dir", target, "-q"]
     if feats:
-        cmd += ["--features", ",".join(feats)]
+        base += ["--features", ",".join(feats)]
     t0 = time.time()
-    p = subprocess.run(cmd, capture_output=True, text=True, env=dict(os.environ, CARGO_NET_OFFLINE="true", RUSTFLAGS=os.environ.get("RUSTFLAGS", "")))
-    return p.returncode, p.stderr, " ".join(cmd), time.time() - t0
+    env = dict(os.environ, CARGO_NET_OFFLINE="true")
+    for extra in (["--lib"], ["--examples"]):
+        cmd = base + extra
+        p = subprocess.run(cmd, capture_output=True, text=True, env=env)
+        if p.returncode != 0:
+            return p.returncode, p.stderr, " ".join(cmd), time.time() - t0
+    return 0, "", " ".join(base + ["--lib", "&&", "...", "--examples"]), time.time() - t0
 
 PROBE_CONFIGS = [m + d for m in [[], ["model-chrono"], ["model-uom"], ["model-serde"], ["model-chrono", "model-uom", "model-serde"]]
                  for d in [[], ["data-aws"], ["data-decode"], ["data-model"], ["data-aws", "data-decode", "data-model"]]]
@@ -147,7 +157,7 @@ def main():
         "coverage": {
             "evaluations": len(results) + len(probe_results),
             "distinct_nontrivial": distinct,
-            "rule": "a case is one (crate, feature set) configuration checked with cargo check --no-default-features --features <set> --lib --examples against /repo's working tree, or one probe binary built and run against a named-feature configuration; trivial = empty feature set; distinct = distinct non-empty (crate, feature set) pairs; oracle = cargo's exit status / probe prints PROBE-OK",
+            "rule": "a case is one (crate, feature set) configuration checked with cargo check --no-default-features --features <set>, first `--lib` alone (the consumer's view; no dev-dependency feature unification), then `--examples`, against /repo's working tree, or one probe binary built and run against a named-feature configuration; trivial = empty feature set; distinct = distinct non-empty (crate, feature set) pairs; oracle = cargo's exit status / probe prints PROBE-OK",
             "samples": [{"crate": c, "features": f, "exit": rc, "seconds": round(dt, 2), "cmd": cmd} for (c, f, rc, _e, cmd, dt) in results[:3] + results[-2:]],
             "exhaustive": True,
             "exhaustive_subdomain": ("model 2^3, decode 2^2, facade 2^3, data 2^10 (named + optional-dependency features) + verif-hooks on" if tier == "thorough"
